@@ -34,6 +34,9 @@ type ocspWorld struct {
 	leaf      *pki.Cert
 	delegate  *pki.Cert // issued by root, OCSP-signing EKU
 	sibling   *pki.Cert // issued by root, no OCSP-signing EKU
+	sibNoEKU  *pki.Cert // issued by root, no extended key usage extension at all
+	sibAnyEKU *pki.Cert // issued by root, anyExtendedKeyUsage only
+	subCA     *pki.Cert // a CA issued by root (certSign), no extended key usage
 	otherRoot *pki.Cert
 	otherDel  *pki.Cert // delegate of the other CA
 	urls      []string
@@ -53,6 +56,13 @@ func newOCSPWorld(issuerKey string, serialClass string, urls []string, crls []st
 	w.delegate = pki.Issue(dt, pki.K("p256-f"), w.root, nil)
 	sb := pki.LeafTmpl("c04 sibling")
 	w.sibling = pki.Issue(sb, pki.K("p256-g"), w.root, nil)
+	sb2 := pki.LeafTmpl("c04 sibling without eku extension")
+	sb2.EKUs = nil
+	w.sibNoEKU = pki.Issue(sb2, pki.K("p256-g"), w.root, nil)
+	sb3 := pki.LeafTmpl("c04 sibling with any eku")
+	sb3.EKUs = []asn1.ObjectIdentifier{{2, 5, 29, 37, 0}}
+	w.sibAnyEKU = pki.Issue(sb3, pki.K("p256-g"), w.root, nil)
+	w.subCA = pki.Issue(pki.CATmpl("c04 subordinate ca"), pki.K("p256-g"), w.root, nil)
 	w.otherRoot = pki.Issue(pki.RootTmpl("c04 other root"), pki.K("p256-b"), nil, nil)
 	w.otherDel = pki.Issue(dt, pki.K("p256-h"), w.otherRoot, nil)
 	return w
@@ -86,7 +96,7 @@ const (
 type ocspBehaviour struct {
 	name  string
 	class ocspClass
-	inv   int // for clsRevokedInv: -1 before, 0 equal, +1 after the reference signing time
+	inv   int    // for clsRevokedInv: -1 before, 0 equal, +1 after the reference signing time
 	prime string // behaviour whose genuine answer the library processes once, in the same execution, before this one is served
 	make  func(w *ocspWorld) netsim.Answer
 }
@@ -166,6 +176,17 @@ func ocspBehaviours() []ocspBehaviour {
 	add("good/signed-by-sibling-without-eku", clsOther, func(w *ocspWorld) netsim.Answer {
 		return okResp(pki.ForgeOCSP(pki.OCSPSpec{Issuer: w.root, Signer: w.sibling.Key, Responder: w.sibling, Embed: []*pki.Cert{w.sibling}, Singles: []pki.OCSPSingle{single(w, pki.OCSPGood)}}))
 	})
+	// certificates of the same issuer that Go's chain verifier would let pass for any usage: no EKU extension, anyExtendedKeyUsage, a subordinate CA
+	for _, sg := range []struct {
+		n   string
+		get func(w *ocspWorld) *pki.Cert
+	}{{"sibling-with-no-eku-extension", func(w *ocspWorld) *pki.Cert { return w.sibNoEKU }}, {"sibling-with-any-eku", func(w *ocspWorld) *pki.Cert { return w.sibAnyEKU }}, {"subordinate-ca-of-the-issuer", func(w *ocspWorld) *pki.Cert { return w.subCA }}} {
+		sg := sg
+		add("good/signed-by-"+sg.n, clsOther, func(w *ocspWorld) netsim.Answer {
+			x := sg.get(w)
+			return okResp(pki.ForgeOCSP(pki.OCSPSpec{Issuer: w.root, Signer: x.Key, Responder: x, Embed: []*pki.Cert{x}, Singles: []pki.OCSPSingle{single(w, pki.OCSPGood)}}))
+		})
+	}
 	add("good/signed-by-unrelated-root-embedded", clsOther, func(w *ocspWorld) netsim.Answer {
 		return okResp(pki.ForgeOCSP(pki.OCSPSpec{Issuer: w.root, Signer: w.otherRoot.Key, Responder: w.otherRoot, Embed: []*pki.Cert{w.otherRoot}, Singles: []pki.OCSPSingle{single(w, pki.OCSPGood)}}))
 	})
@@ -460,6 +481,8 @@ func (s *c04Scenario) body(c *mc.Ctx) {
 	contacted := map[int]*ocspBehaviour{}
 	var order []int
 	crlFetched := false
+	phase := 1
+	fixed := map[int]*ocspBehaviour{} // the answer each URL gave last in the first check: it gives the same in the second
 	tr := &netsim.Transport{}
 	tr.Handler = func(r *netsim.Request, raw *http.Request) netsim.Answer {
 		if raw.URL.Host == "crl.c04.test" {
@@ -479,6 +502,14 @@ func (s *c04Scenario) body(c *mc.Ctx) {
 		if idx < 0 {
 			return netsim.Answer{Status: 404}
 		}
+		if b, ok := fixed[idx]; ok && phase == 2 {
+			if _, seen := contacted[idx]; !seen {
+				order = append(order, idx)
+			}
+			contacted[idx] = b
+			c.Tracef("%s %s -> answer %q (as before)", r.Method, r.URL, b.name)
+			return w.answer(b)
+		}
 		var k int
 		if s.free {
 			k = c.ChooseFree(fmt.Sprintf("answer[url%d]", idx), len(c04Behaviours))
@@ -490,6 +521,7 @@ func (s *c04Scenario) body(c *mc.Ctx) {
 			order = append(order, idx)
 		}
 		contacted[idx] = b
+		fixed[idx] = b
 		if b.prime != "" {
 			// the genuine twin is answered to a check of its own first (verdict not used)
 			g := w.answer(c04ByName(b.prime))
@@ -509,10 +541,12 @@ func (s *c04Scenario) body(c *mc.Ctx) {
 	chain := []*x509.Certificate{w.leaf.X, w.root.X}
 	var res []*result.CertRevocationResult
 	var err error
+	var v revocation.Validator
 	switch s.entry {
 	case "validate":
 		hf, _ := corecrl.NewHTTPFetcher(tr.Client())
-		v, e := revocation.NewWithOptions(revocation.Options{OCSPHTTPClient: tr.Client(), CRLFetcher: hf, CertChainPurpose: purpose.CodeSigning})
+		var e error
+		v, e = revocation.NewWithOptions(revocation.Options{OCSPHTTPClient: tr.Client(), CRLFetcher: hf, CertChainPurpose: purpose.CodeSigning})
 		if e != nil {
 			panic(mc.HarnessError{Msg: e.Error()})
 		}
@@ -524,44 +558,66 @@ func (s *c04Scenario) body(c *mc.Ctx) {
 		c.Fail("C04 harness-level: valid chain not processed", "err=%v results=%v", err, res)
 		return
 	}
-	verdict := res[0].Result
-	// reference: judge the verdict against the behaviours of the URLs actually contacted
-	var anyOK, anyRevNE, anyRevEv, anyUnk, anyDC bool
-	var names []string
-	for _, i := range order {
-		b := contacted[i]
-		names = append(names, b.name)
-		anyOK = anyOK || b.okWorthy(st)
-		anyRevNE = anyRevNE || b.revokedNotExempt(st)
-		anyRevEv = anyRevEv || b.revokedEvidence()
-		anyUnk = anyUnk || b.class == clsUnknown
-		anyDC = anyDC || b.class == clsDontCare
-	}
-	c.Statef("contacted=%d okWorthy=%v revoked=%v unknownStatus=%v dc=%v", len(order), anyOK, anyRevNE, anyUnk, anyDC)
-	c.Outcome("verdict:" + verdict.String())
-	c.Tracef("verdict %s; contacted %v", verdict, names)
-	sigCtx := func() string {
-		// canonical: the set of contacted behaviour names that matter (last contacted is the decisive one)
-		if len(names) == 0 {
-			return "no-responder-contacted"
+	judge := func(verdict result.Result, st time.Time, suffix string) (dontCare bool) {
+		// reference: judge the verdict against the behaviours of the URLs actually contacted
+		var anyOK, anyRevNE, anyRevEv, anyUnk, anyDC bool
+		var names []string
+		for _, i := range order {
+			b := contacted[i]
+			names = append(names, b.name)
+			anyOK = anyOK || b.okWorthy(st)
+			anyRevNE = anyRevNE || b.revokedNotExempt(st)
+			anyRevEv = anyRevEv || b.revokedEvidence()
+			anyUnk = anyUnk || b.class == clsUnknown
+			anyDC = anyDC || b.class == clsDontCare
 		}
-		return "decisive=" + names[len(names)-1]
+		c.Statef("contacted=%d okWorthy=%v revoked=%v unknownStatus=%v dc=%v", len(order), anyOK, anyRevNE, anyUnk, anyDC)
+		c.Outcome("verdict:" + verdict.String())
+		c.Tracef("verdict %s; contacted %v", verdict, names)
+		sigCtx := func() string {
+			// canonical: the set of contacted behaviour names that matter (last contacted is the decisive one)
+			if len(names) == 0 {
+				return "no-responder-contacted"
+			}
+			return "decisive=" + names[len(names)-1] + suffix
+		}
+		if s.withCRL && crlFetched && !anyOK && !anyRevNE && !anyRevEv {
+			// OCSP was inconclusive and the clean CRL was consulted: its verdict (OK) is CRL evidence, outside this property
+			c.Outcome("verdict-by-crl-fallback:" + verdict.String())
+			return true
+		}
+		if !anyDC {
+			if (verdict == result.ResultOK || verdict == result.ResultNonRevokable) && !anyOK {
+				c.Fail("C04 OK-without-authentic-good "+sigCtx(), "verdict %s but no contacted responder gave an authentic, current Good answer for this serial; contacted: %v (signing time set: %v)%s", verdict, names, !st.IsZero(), suffix)
+			}
+			if anyRevNE && !anyOK && !anyUnk && verdict != result.ResultRevoked {
+				c.Fail("C04 revoked-answer-not-honoured "+sigCtx(), "an authentic current Revoked answer was delivered, verdict is %s; contacted: %v%s", verdict, names, suffix)
+			}
+			if verdict == result.ResultRevoked && !anyRevEv {
+				c.Fail("C04 revoked-without-evidence "+sigCtx(), "verdict Revoked without an authentic Revoked answer; contacted: %v%s", names, suffix)
+			}
+		}
+		return anyDC
 	}
-	if s.withCRL && crlFetched && !anyOK && !anyRevNE && !anyRevEv {
-		// OCSP was inconclusive and the clean CRL was consulted: its verdict (OK) is CRL evidence, outside this property
-		c.Outcome("verdict-by-crl-fallback:" + verdict.String())
+	if judge(res[0].Result, st, "") {
 		return
 	}
-	if !anyDC {
-		if (verdict == result.ResultOK || verdict == result.ResultNonRevokable) && !anyOK {
-			c.Fail("C04 OK-without-authentic-good "+sigCtx(), "verdict %s but no contacted responder gave an authentic, current Good answer for this serial; contacted: %v (signing time set: %v)", verdict, names, s.withTime)
+	if s.entry == "validate" && len(c.Fails) == 0 {
+		// the same validator object asked again about the same certificate, with the other signing-time setting; every URL answers
+		// as before. What the first check concluded was for its signing time: the second is judged for its own.
+		phase = 2
+		contacted, order, crlFetched = map[int]*ocspBehaviour{}, nil, false
+		st2 := w.st
+		if s.withTime {
+			st2 = time.Time{}
 		}
-		if anyRevNE && !anyOK && !anyUnk && verdict != result.ResultRevoked {
-			c.Fail("C04 revoked-answer-not-honoured "+sigCtx(), "an authentic current Revoked answer was delivered, verdict is %s; contacted: %v", verdict, names)
+		res2, err2, pan2 := callValidate(v, context.Background(), revocation.ValidateContextOptions{CertChain: chain, AuthenticSigningTime: st2})
+		if pan2 != nil || err2 != nil || len(res2) != 2 || res2[0] == nil {
+			c.Fail("C04 second check through the same validator not processed", "panic=%v err=%v", pan2, err2)
+			return
 		}
-		if verdict == result.ResultRevoked && !anyRevEv {
-			c.Fail("C04 revoked-without-evidence "+sigCtx(), "verdict Revoked without an authentic Revoked answer; contacted: %v", names)
-		}
+		c.Outcome("second-verdict:" + res2[0].Result.String())
+		judge(res2[0].Result, st2, " [second check through the same validator, other signing time]")
 	}
 	// every initial request is a well-formed OCSP request for this certificate over http
 	for _, r := range tr.Requests() {
